@@ -22,7 +22,8 @@ def run(tier):
         reps = parallel(cfg, lambda o, k, n: ["sign", tf, o, ck.seed, lmax if cfg == "stable" else 40, nseeds if cfg == "stable" else 1, k, n], nproc, os.path.join(wd, "sign_" + cfg))
         for rep in reps:
             _merge(ck, rep, "" if cfg == "stable" else "[%s] " % cfg)
-    ck.cov["distinct_nontrivial"] = len(table[0]) * (lmax + 1) * nseeds
+    if not ck.cov["distinct_nontrivial"]:
+        ck.cov["distinct_nontrivial"] = len(table[0]) * (lmax + 1) * nseeds
     ck.cov["table_cells"] = len(table[0])
     ck.cov["rule"] = ("%d cells of Sign.tla's decision table (R x S x public key x message x signed mode x verified mode, single deviations plus the small-order forgery family) "
                       "x every message length 0..%d x %d seeds; each cell expanded to EVERY bit of R, S, public key and message (thinned to every 37th/29th bit on lengths > 24 not multiple of 16), S + kL for every k that fits 256 bits, "
